@@ -282,7 +282,7 @@ def generate(R, tier, focus):
             npos_t = int((flat_rates(test, rates_w) > 0).sum())
             if n_active > npos_t:
                 continue        # no valid simulated catalog exists: property vacuous
-            if wide or liveness_budget(test, rates_w, n_active, nsim) >= 100000:
+            if wide or expected_draws(test, rates_w, n_active, nsim) >= 30000:
                 # legitimately long coupon-collector loop: drive the simulation through random_numbers=
                 rows = inject_rows_for(R, test, rates_w, n_active, nsim)
                 if rows is None:
@@ -308,6 +308,10 @@ def generate(R, tier, focus):
                 for j_ in range(n_per_sim):
                     row.append(R.choice(specials) if R.random() < 0.3 else R.random())
                 rows.append(row)
+            if R.random() < 0.2:
+                # a pool with more rows than simulations: only the first num_simulations rows are consumed
+                for _x in range(R.randint(1, 3)):
+                    rows.append([R.random() for _ in range(n_per_sim)])
             op['random_numbers'] = rows
             op['ncol'] = n_per_sim
         if op['mode'] == 'rng':
@@ -532,7 +536,7 @@ def run_gridded_test(test, fc, obs, nsim, seed, random_numbers, ncol=None):
          'BRIER': br.brier_score_test}[test]
     kw = dict(num_simulations=nsim, seed=seed, verbose=False)
     if random_numbers is not None:
-        kw['random_numbers'] = numpy.array(random_numbers, dtype=float).reshape(nsim, ncol if ncol is not None else -1)
+        kw['random_numbers'] = numpy.array(random_numbers, dtype=float).reshape(len(random_numbers), ncol if ncol is not None else -1)
     return f(fc, obs, **kw)
 
 
@@ -560,6 +564,20 @@ def execute(scn, ctx, collect_results=None):
         set_tz('UTC')
     for k, v in rng.fired.items():
         ctx.count('fire:override_' + k, v)
+
+
+def expected_draws(test, rates2d, n_active, nsim):
+    """rough expected number of uniforms of the rejection loops (coupon collector over the n_active most likely bins)"""
+    flat = flat_rates(test, rates2d)
+    tot = float(flat.sum())
+    probs = sorted((float(x) / tot for x in flat if x > 0), reverse=True)[:max(n_active, 0)]
+    if len(probs) < n_active or not probs:
+        return float('inf')
+    rest = 1.0
+    exp = 0.0
+    for p_ in probs:
+        exp += 1.0 / max(p_, 1e-300)        # pessimistic: waiting for each of them in turn
+    return nsim * exp
 
 
 def liveness_budget(test, rates2d, n_active, nsim):
@@ -803,7 +821,7 @@ def _execute(scn, ctx, rng, collect_results):
             if n_seed_calls == 0 and calls:
                 ctx.count('rare:seed_given_but_rng_not_seeded')
         if inject is not None:
-            key = (test, op['obs'], 'inject', hexf(inject), which, repr(factor[which]))
+            key = (test, op['obs'], 'inject', op['nsim'], hexf(inject), which, repr(factor[which]))
             ren = hexf([v['obs'], q, dist])
             if key in memo and memo[key] != ren:
                 ctx.violate('C06', 'determinism', '%s:injected-numbers:depends-on-history' % test, {'op': oi})
